@@ -52,6 +52,9 @@ func init() {
 	add("window-end-0", false, "toma", "", "topa", "")
 	add("window-end-beyond", false, "toma", "", "topa", "")
 	add("window-start-gt-end", false, "toma", "", "topa", "")
+	for _, k := range []string{"window-start-0", "window-start-beyond", "window-end-0", "window-end-beyond", "window-start-gt-end"} {
+		add(k+"+pad", false, "toma", "")
+	}
 	add("window-start-negative", true, "toma", "", "topa", "")
 	add("window-end-negative", true, "toma", "", "topa", "")
 	add("bad-suffix", false, "variants", "anno", "samvar", "anno")
@@ -221,7 +224,7 @@ func runC18(c *fw.Ctx, idx int) fw.Result {
 		}
 		files[sp.file] = gen.RenderFasta(recs, wrapW)
 	}
-	switch sp.kind {
+	switch strings.TrimSuffix(sp.kind, "+pad") {
 	case "unequal-length-huge":
 		mutRec(func(rc *gen.FastaRec) { rc.Seq = strings.Repeat("A", 3<<19) })
 	case "unequal-length-shorter", "unequal-length-longer", "unequal-length-empty":
@@ -340,6 +343,10 @@ func runC18(c *fw.Ctx, idx int) fw.Result {
 		extra = []string{"--start", fmt.Sprint(s), "--end", fmt.Sprint(s - 1)}
 	case "bad-suffix":
 		ext["anno"] = []string{".txt", ".gbk", ".gff3", ""}[idx%4]
+	}
+	if strings.HasSuffix(sp.kind, "+pad") {
+		// an out-of-range window is refused whether or not the outside is to be padded
+		extra = append(extra, "--pad")
 	}
 	path := func(k string, content map[string]string) string {
 		p := filepath.Join(d, k+ext[k])
